@@ -4,7 +4,7 @@ cd "$(dirname "$0")/.."
 TIER=${1:-quick}; shift
 IDS=${@:-$(ls seeded)}
 for m in $IDS; do
-  p=${m%-*}
+  p=${m%%-*}
   out=$(SKIP_SUITE=1 MAXKEYS=4 TIER=$TIER tools/mutant.sh seeded/$m/patch.diff $p 2>&1)
   echo "$out" > seeded/$m/eval-$TIER.txt
   rc=$(echo "$out" | grep -oE "rc=[0-9]+" | head -1)
